@@ -37,6 +37,9 @@ def plan(tier, seed):
     cfgs.append(dict(kind="wire", loss=None, N=n - 1, gaps=["S", 1, 2], order=0, behind=1))
     # the same packet object travels a second path too (Hub fan-out) and enters another wire one second later
     cfgs.append(dict(kind="wire", loss=None, N=n - 1, gaps=["S", 1, 2], order=0, fanout=1))
+    # entry instants that are not multiples of 0.01 (trace output rounds to two decimals), with and without debug
+    cfgs.append(dict(kind="wire", loss=None, N=n - 1, gaps=["S", 0.125, 1.375], order=0))
+    cfgs.append(dict(kind="wire", loss=None, N=n - 1, gaps=["S", 0.125, 1.375], order=0, debug=1))
     for loss in (None, 0.5):
         cfgs.append(dict(kind="cable", loss=loss, N=n - 1 if loss is None else n - 2, gaps=["S", 1, 2], order=0))
     # every configuration once more with long fixed workloads (state that only breaks after hundreds of packets)
